@@ -52,10 +52,10 @@ func (env *Env) nopol() *Env {
 // positions) by the bound variable; each (offset, shift) pair is a rebasing candidate. As a hypothesis the
 // quantifier is emitted once per candidate (equivalent formulas, different triggers).
 type quantCtx struct {
-	bv    string // bound variable name (index)
-	k     string // absolute-offset variable
+	bv    string      // bound variable name (index)
+	k     string      // absolute-offset variable
 	cands [][3]string // (slice offset, shift, stride in slots)
-	apply int // -1: collecting candidates (plain form); >=0: rebase on cands[apply]
+	apply int         // -1: collecting candidates (plain form); >=0: rebase on cands[apply]
 }
 
 func (env *Env) with(name string, v Val) *Env {
